@@ -3,6 +3,7 @@
 #include "kernel.hpp"
 #include <sys/personality.h>
 #include <sys/resource.h>
+#include <sys/prctl.h>
 #include <sys/wait.h>
 #include <sys/stat.h>
 #include <unistd.h>
@@ -19,11 +20,16 @@
 extern "C" __attribute__((used, visibility("default"))) const char* __asan_default_options() {
     return "exitcode=77:detect_leaks=0:abort_on_error=0:quarantine_size_mb=2:allocator_release_to_os_interval_ms=-1:malloc_context_size=12:allocator_may_return_null=1:detect_stack_use_after_return=0:handle_segv=1:detect_odr_violation=0";
 }
+#if !defined(__has_feature) || !__has_feature(thread_sanitizer)
+// (not in the TSan build: its runtime embeds UBSan's flag parser, and this exitcode would override TSan's)
 extern "C" __attribute__((used, visibility("default"))) const char* __ubsan_default_options() {
     return "halt_on_error=1:exitcode=77:print_stacktrace=1";
 }
+#endif
 extern "C" __attribute__((used, visibility("default"))) const char* __tsan_default_options() {
-    return "exitcode=0:halt_on_error=0:report_signal_unsafe=0:second_deadlock_stack=1";
+    // symbolize=0: reports are classified through the engine's own symbol table; a spawned llvm-symbolizer per
+    // forked run would dominate the run time (set TSAN_OPTIONS=symbolize=1 when inspecting a replay by hand)
+    return "exitcode=0:halt_on_error=0:report_signal_unsafe=0:second_deadlock_stack=1:symbolize=0";
 }
 
 namespace sim {
@@ -58,6 +64,10 @@ static const Known* matchKnown(const Outcome& o) {
     return nullptr;
 }
 
+bool knownFindingMatches(const std::string& cls, const std::string& detail, std::string* idOut) {
+    Outcome o; o.cls = cls; o.detail = detail; const Known* k = matchKnown(o); if (k && idOut) *idOut = k->id; return k != nullptr;
+}
+
 static std::string sanitize(std::string s) { for (auto& c : s) if (c == '\n' || c == '\t' || c == '\r') c = ' '; return s; }
 static std::string fileSafe(std::string s) { for (auto& c : s) if (!isalnum((unsigned char)c) && c != '-' && c != '_' && c != '.') c = '_'; if (s.size() > 60) s.resize(60); return s; }
 
@@ -69,7 +79,7 @@ static void parseKv(const std::string& s, std::map<std::string, uint64_t>& m) {
 
 struct Cfg {
     std::string prop, tier = "quick", replay, execPlan, shrinkFile, evidence, hashes, known = "/verif/known_findings.json", workDir = "/verif/build/work", replayDir = "/verif/replays";
-    uint64_t seed = 1, runs = 0, start = 0; int workers = 8; double maxSeconds = 0; int detEvery = 16; double hangSeconds = 120; bool noShrink = false; bool trace = false; int workerIndex = -1;
+    uint64_t seed = 1, runs = 0, start = 0; int workers = 8; double maxSeconds = 0; int detEvery = 16; double hangSeconds = 60; bool noShrink = false; bool trace = false; int workerIndex = -1;
 };
 
 // --- shrinking: greedy first-improvement over engine candidates
@@ -93,6 +103,8 @@ static std::string classInProcess(Engine& eng, const Json& plan) { Outcome o = e
 // Extract a sanitizer/crash class from a worker's stderr text.
 static std::string crashClass(const std::string& err, int status) {
     std::smatch m;
+    // an engine that must leave the process to report (deadlocked threads, per-process de-duplicating detector) says so itself
+    { size_t p = err.rfind("SIMVIOLATION "); if (p != std::string::npos) { size_t e = err.find('\n', p); return err.substr(p + 13, e == std::string::npos ? std::string::npos : e - p - 13); } }
     static const std::regex asan("SUMMARY: (AddressSanitizer|UndefinedBehaviorSanitizer|LeakSanitizer|ThreadSanitizer): ([A-Za-z0-9_-]+)[^\\n]*? in ([^\\n]+)");
     static const std::regex asan2("SUMMARY: (AddressSanitizer|UndefinedBehaviorSanitizer|LeakSanitizer|ThreadSanitizer): ([A-Za-z0-9_-]+) ([^\\n]+)");
     static const std::regex ub("([A-Za-z0-9_./-]+):(\\d+):\\d+: runtime error: ([^\\n]+)");
@@ -104,6 +116,8 @@ static std::string crashClass(const std::string& err, int status) {
     return "crash:unknown";
 }
 
+static std::string g_prop, g_knownPath, g_workDir = "/verif/build/work";
+
 // run a plan in a forked child; returns class ("" if not violated)
 static std::string classInChild(Engine& eng, const Json& plan, const std::string& errPath, double timeoutS, std::string* detail = nullptr) {
     int pfd[2]; if (pipe(pfd)) return "crash:pipe";
@@ -112,6 +126,13 @@ static std::string classInChild(Engine& eng, const Json& plan, const std::string
     if (pid == 0) {
         close(pfd[0]);
         int efd = open(errPath.c_str(), O_WRONLY | O_CREAT | O_TRUNC, 0644); if (efd >= 0) { dup2(efd, 2); close(efd); }
+        if (eng.runEachInForkedChild()) {
+            // reproduce exactly the process lineage of the batch: fresh exec -> globalInit -> fork -> execute
+            std::string pf = g_workDir + "/" + g_prop + ".plan." + std::to_string((long)getpid()) + ".json"; writeFile(pf, plan.dump());
+            dup2(pfd[1], 1);
+            execl("/proc/self/exe", "sim", "--prop", g_prop.c_str(), "--exec-plan", pf.c_str(), "--known", g_knownPath.c_str(), (char*)0);
+            _exit(127);
+        }
         eng.globalInit();
         Outcome o = eng.execute(plan);
         std::string line = (o.violated ? o.cls : std::string()) + "\t" + sanitize(o.detail) + "\n";
@@ -147,14 +168,31 @@ static void workerLoop(Engine& eng, const Cfg& cfg, int w, uint64_t start, int o
     for (uint64_t i = start; i < cfg.runs; i += (uint64_t)cfg.workers) {
         if (deadline > 0 && nowS() > deadline) { fprintf(out, "T %llu\n", (unsigned long long)i); break; }
         fprintf(out, "B %llu\n", (unsigned long long)i); fflush(out);
+        pid_t runChild = -1;
+        if (eng.runEachInForkedChild()) {
+            // every run gets a pristine process image (detector state, allocator layout): what a run reports then
+            // depends on its plan only, and a fresh-process replay sees exactly what the batch saw
+            fflush(stderr); runChild = fork();
+            if (runChild > 0) {
+                int st = 0; waitpid(runChild, &st, 0);
+                if (!(WIFEXITED(st) && WEXITSTATUS(st) == 0)) { fflush(out); _exit(WIFEXITED(st) ? WEXITSTATUS(st) : 99); }
+                continue;
+            }
+            if (runChild == 0) prctl(PR_SET_PDEATHSIG, SIGKILL);
+        }
         Json plan = eng.generate(cfg.seed, i, cfg.tier);
         Outcome o = eng.execute(plan);
         uint64_t h = g_run.logHash, ticks = g_run.ticks;
         std::map<std::string, uint64_t> faults = g_run.faults, probes = g_run.probes;
         if (cfg.detEvery > 0 && (i / (uint64_t)cfg.workers) % (uint64_t)cfg.detEvery == 0) {
             Outcome o2 = eng.execute(plan);
-            if (g_run.logHash != h || o2.cls != o.cls || o2.violated != o.violated) fprintf(out, "D %llu\t%s|%s\n", (unsigned long long)i, o.cls.c_str(), o2.cls.c_str());
+            bool sameClass = !eng.inProcessReexecutionReproducesClass() || (o2.cls == o.cls && o2.violated == o.violated);
+            if (g_run.logHash != h || !sameClass) fprintf(out, "D %llu\t%s|%s\n", (unsigned long long)i, o.cls.c_str(), o2.cls.c_str());
             else fprintf(out, "E %llu\n", (unsigned long long)i);
+        }
+        if (o.violated && !eng.inProcessReexecutionReproducesClass() && !matchKnown(o)) {
+            // leave the process: the parent re-executes the plan in fresh children (gate, shrink, replay)
+            fflush(out); fprintf(stderr, "\nDETAIL %s\nSIMVIOLATION %s\n", sanitize(o.detail).substr(0, 1200).c_str(), o.cls.c_str()); fflush(stderr); _exit(78);
         }
         if (o.violated) {
             const Known* k = matchKnown(o);
@@ -179,6 +217,7 @@ static void workerLoop(Engine& eng, const Cfg& cfg, int w, uint64_t start, int o
         }
         fprintf(out, "R %llu %llx %llx %llu %d %s %s\n", (unsigned long long)i, (unsigned long long)o.fingerprint, (unsigned long long)h, (unsigned long long)ticks, o.nontrivial ? 1 : 0, kv(faults).c_str(), kv(probes).c_str());
         fflush(out);
+        if (runChild == 0) _exit(0);
     }
     fprintf(out, "F\n"); fflush(out);
 }
@@ -216,15 +255,40 @@ int driverMain(int argc, char** argv, std::function<Engine*(const std::string&)>
     loadKnown(cfg.known, cfg.prop);
     g_run.trace = cfg.trace;
 
+    g_prop = cfg.prop; g_knownPath = cfg.known; g_workDir = cfg.workDir;
+    // ---- internal: execute one plan file the way a worker does (fresh image -> globalInit -> fork -> execute)
+    if (!cfg.execPlan.empty()) {
+        std::string txt; if (!readFile(cfg.execPlan, txt)) return 2; Json plan = Json::parse(txt); unlink(cfg.execPlan.c_str());
+        eng->globalInit();
+        pid_t c = eng->runEachInForkedChild() ? fork() : 0;
+        if (c > 0) { int st = 0; waitpid(c, &st, 0); if (WIFEXITED(st)) _exit(WEXITSTATUS(st)); raise(WTERMSIG(st)); _exit(99); }
+        Outcome o = eng->execute(plan);
+        std::string line = (o.violated ? o.cls : std::string()) + "\t" + sanitize(o.detail) + "\n"; (void)!write(1, line.data(), line.size());
+        _exit(0);
+    }
     // ---- replay of a stored plan
     if (!cfg.replay.empty()) {
         std::string txt; if (!readFile(cfg.replay, txt)) { fprintf(stderr, "cannot read %s\n", cfg.replay.c_str()); return 2; }
         Json rf = Json::parse(txt); const Json& plan = rf.has("plan") ? rf.at("plan") : rf;
         eng->globalInit();
+        if (eng->runEachInForkedChild()) {
+            // same lineage as the batch (see above); the child reports, this process relays the verdict
+            int pfd[2]; if (pipe(pfd)) return 2; fflush(stdout);
+            pid_t c = fork();
+            if (c == 0) { close(pfd[0]); Outcome o = eng->execute(plan); std::string line = std::string(o.violated ? "1" : "0") + "\t" + o.cls + "\t" + sanitize(o.detail) + "\n"; (void)!write(pfd[1], line.data(), line.size()); _exit(0); }
+            close(pfd[1]); std::string out; char tmp[4096]; ssize_t n; while ((n = read(pfd[0], tmp, sizeof tmp)) > 0) out.append(tmp, (size_t)n); int st = 0; waitpid(c, &st, 0);
+            Outcome o;
+            if (out.empty()) { o.violated = true; o.cls = WIFEXITED(st) ? "crash:exit" + std::to_string(WEXITSTATUS(st)) : "crash:signal" + std::to_string(WTERMSIG(st)); o.detail = "the run left its process without a verdict (deadlocked threads or crash; see stderr)"; }
+            else { size_t a = out.find('\t'), b = out.find('\t', a + 1); o.violated = out[0] == '1'; o.cls = out.substr(a + 1, b - a - 1); o.detail = out.substr(b + 1); }
+            printf("REPLAY property=%s violated=%d class=%s \n", cfg.prop.c_str(), o.violated ? 1 : 0, o.cls.c_str());
+            if (o.violated) { printf("DETAIL %s\n", o.detail.c_str()); const Known* k = matchKnown(o); if (k) { printf("KNOWN-FINDING: property=%s %s\n", cfg.prop.c_str(), k->what.c_str()); return 0; } printf("VIOLATION property=%s replay=%s\n", cfg.prop.c_str(), cfg.replay.c_str()); return 1; }
+            return 0;
+        }
         Outcome o = eng->execute(plan); uint64_t h1 = g_run.logHash;
         if (cfg.trace) fputs(g_run.traceText.c_str(), stderr);
         Outcome o2 = eng->execute(plan); uint64_t h2 = g_run.logHash;
-        if (o.violated != o2.violated || o.cls != o2.cls || h1 != h2) { printf("REPLAY nondeterministic class1=%s class2=%s\n", o.cls.c_str(), o2.cls.c_str()); return 2; }
+        bool sameCls = !eng->inProcessReexecutionReproducesClass() || (o.violated == o2.violated && o.cls == o2.cls);
+        if (!sameCls || h1 != h2) { printf("REPLAY nondeterministic class1=%s class2=%s\n", o.cls.c_str(), o2.cls.c_str()); return 2; }
         printf("REPLAY property=%s violated=%d class=%s loghash=%llx\n", cfg.prop.c_str(), o.violated ? 1 : 0, o.cls.c_str(), (unsigned long long)h1);
         if (o.violated) { printf("DETAIL %s\n", o.detail.c_str()); const Known* k = matchKnown(o); if (k) { printf("KNOWN-FINDING: property=%s %s\n", cfg.prop.c_str(), k->what.c_str()); return 0; } printf("VIOLATION property=%s replay=%s\n", cfg.prop.c_str(), cfg.replay.c_str()); return 1; }
         return 0;
@@ -342,7 +406,11 @@ int driverMain(int argc, char** argv, std::function<Engine*(const std::string&)>
     // ---- crash violations: confirm in a fresh child, shrink by forked execution, write replay
     eng->globalInit();  // parent needs generate() only; harmless
     std::set<std::string> crashSeen;
+    std::set<std::string> crashTried;
     for (auto& v : viols) if (v.crash) {
+        // many runs may die the same way: confirm and shrink only the first of each class as first observed
+        if (crashTried.count(v.cls)) { dupViol[v.cls]++; v.cls.clear(); continue; }
+        crashTried.insert(v.cls);
         Json plan = eng->generate(cfg.seed, v.index, cfg.tier);
         std::string errp = cfg.workDir + "/" + cfg.prop + ".shrink.err";
         std::string det; std::string c1 = classInChild(*eng, plan, errp, cfg.hangSeconds, &det);
